@@ -1966,6 +1966,13 @@ func (tc *typechecker) checkCompositeLiteral(node *ast.CompositeLiteral, typ ref
 
 	case reflect.Slice, reflect.Array:
 
+		if _, ok := node.Type.(*ast.ArrayType); !ok && ti.Type.Kind() == reflect.Array {
+			// The array type is implicit or is a defined type.
+			if max := tc.maxIndex(node); max >= ti.Type.Len() {
+				panic(tc.errorf(node, "array index %d out of bounds [0:%d]", max, ti.Type.Len()))
+			}
+		}
+
 		hasIndex := map[int]struct{}{}
 		for i := range node.KeyValues {
 			kv := &node.KeyValues[i]
